@@ -41,6 +41,8 @@ theorem inv_step (o : ExitOrder) (s : State) (op : Op) (h : Inv o s) : Inv o (st
   case frontReadError i => unfold frontReadError slotResult State.setPhase; constructor <;> grind [pastClose]
   case frontTimer i => unfold frontTimer State.setPhase; constructor <;> grind [pastClose]
   case consumerMsg => unfold consumerMsg; constructor <;> grind [pastClose]
+  case frontWatch => unfold frontWatch; constructor <;> grind [pastClose]
+  case taskAnswers i => unfold taskAnswers completeOne State.setPhase; constructor <;> grind [pastClose]
   case sendTake => unfold sendTake; constructor <;> grind [pastClose]
   case sendOk => unfold sendOk; constructor <;> grind [pastClose]
   case sendErr t => unfold sendErr exitLoop; constructor <;> grind [pastClose]
@@ -95,6 +97,8 @@ theorem cinv_step (o : ExitOrder) (s : State) (op : Op) (h : Inv o s) (hc : CInv
   case frontReadError i => unfold frontReadError slotResult State.setPhase; constructor <;> grind
   case frontTimer i => unfold frontTimer State.setPhase; constructor <;> grind
   case consumerMsg => unfold consumerMsg; constructor <;> grind
+  case frontWatch => unfold frontWatch; constructor <;> grind
+  case taskAnswers i => unfold taskAnswers completeOne State.setPhase; constructor <;> grind
   case sendTake => unfold sendTake; constructor <;> grind
   case sendOk => unfold sendOk; constructor <;> grind
   case sendErr t =>
@@ -146,6 +150,8 @@ theorem cause_stable_step (o : ExitOrder) (s : State) (op : Op) (h : Inv o s) (c
   case frontReadError i => unfold frontReadError State.setPhase; grind
   case frontTimer i => unfold frontTimer State.setPhase; grind
   case consumerMsg => unfold consumerMsg; grind
+  case frontWatch => unfold frontWatch; grind
+  case taskAnswers i => unfold taskAnswers completeOne State.setPhase; grind
   case sendTake => unfold sendTake; grind
   case sendOk => unfold sendOk; grind
   case sendErr t => unfold sendErr exitLoop; grind
@@ -177,6 +183,8 @@ theorem resolved_stable_step (o : ExitOrder) (s : State) (op : Op) (i : Nat) (r 
   case frontReadError i => unfold frontReadError State.setPhase; grind
   case frontTimer i => unfold frontTimer State.setPhase; grind
   case consumerMsg => unfold consumerMsg; grind
+  case frontWatch => unfold frontWatch; grind
+  case taskAnswers i => unfold taskAnswers completeOne State.setPhase; grind
   case sendTake => unfold sendTake; grind
   case sendOk => unfold sendOk; grind
   case sendErr t => unfold sendErr exitLoop; grind
@@ -569,7 +577,8 @@ theorem settleFront_resolves (o : ExitOrder) (s : State) (h : Inv o s) (hc : CIn
 theorem wait_raced (o : ExitOrder) (s : State) (h : Inv o s) (i : Nat) (p : FPhase) (hp : s.fronts[i]? = some p) :
     (∃ r, p = .resolved r) ∨
     (frontTimer s i).fronts[i]? = some (FPhase.resolved .timeout) ∨
-    (p = .disconnected ∧ (frontReadError s i).fronts[i]? = some (FPhase.resolved (slotResult s))) := by
+    (p = .disconnected ∧ (frontReadError s i).fronts[i]? = some (FPhase.resolved (slotResult s))) ∨
+    p = .watching := by
   have hi : i < s.fronts.length := by
     rcases Nat.lt_or_ge i s.fronts.length with h1 | h1
     · exact h1
@@ -847,6 +856,8 @@ theorem linv_step (o : ExitOrder) (s : State) (op : Op) (h : Inv o s) (hl : LInv
   case frontReadError i => unfold frontReadError slotResult State.setPhase; constructor <;> grind [shuttingDown]
   case frontTimer i => unfold frontTimer State.setPhase; constructor <;> grind [shuttingDown]
   case consumerMsg => unfold consumerMsg; constructor <;> grind [shuttingDown]
+  case frontWatch => unfold frontWatch; constructor <;> grind [shuttingDown]
+  case taskAnswers i => unfold taskAnswers completeOne State.setPhase; constructor <;> grind [shuttingDown]
   case sendTake => unfold sendTake; constructor <;> grind [shuttingDown]
   case sendOk => unfold sendOk; constructor <;> grind [shuttingDown]
   case sendErr t => unfold sendErr exitLoop; constructor <;> grind [shuttingDown]
